@@ -49,7 +49,8 @@ def cmd_run(argv):
             rec = {'i': i, 'seed': seed}
             try:
                 scn = eng.generate(prop, seed, tier)
-                rec['summary'] = eng.summary(scn)
+                if i in (0, 1, n // 2, n // 2 + 1, n - 1):
+                    rec['summary'] = eng.summary(scn)      # written-out sample cases for the evidence file
                 o = eng.execute(scn)
                 rec.update(o)
                 if os.environ.get('VERIF_REPEAT'):
